@@ -14,7 +14,7 @@
    Kinds: [U] unbounded (all table sets with SpecWF, all worlds / contents), [F] finite-complete over the regenerated tables,
    [P] partial.  What is NOT proved (covered by the correspondence + the oracles of checks/c07.py only) is listed at
    C07_order_inv_partial. *)
-From AV Require Import Base.Bytes Base.Outcome Hash.HashModel Spec.SpecOps Spec.SpecReal Tree.Heap Tree.Ops Tree.Range Tree.ValidSubs
+From AV Require Import Base.Bytes Base.Outcome Hash.HashModel Spec.SpecOps Spec.SpecReal Tree.Heap Tree.Ops Tree.Script Tree.Inv Tree.Range Tree.ValidSubs
   Tree.SpecWF Tree.SpecWFReal Tree.RangeProofsCalc Tree.RangeProofsOps Tree.RangeProofsLoader Tree.RangeProofsReal Tree.RangeProofsParser Tree.RangeProofsNamed Tree.CopyProofsDefs Tree.RangeProofsInv.
 From AV Require Xml.Parser.
 Open Scope list_scope.
@@ -272,6 +272,23 @@ Theorem C07_copy_resolves_type_refuted :
     find_sub_element RT (n_type n) (n_name nc) v = Val (Some (et, ix)) /\
     n_type nc <> et.
 Proof. exact copy_keeps_source_type. Qed.
+
+(* [F witness] "every node of every reachable world is Ordered for its CURRENT min_version" is FALSE: Ordered is relative to
+   a version and min_version changes when a file of another version joins the model (finding class mixed-version-files):
+   new model, file f0 (latest), FILE-INFO-COMMENT in the root, second file f1 in AUTOSAR 4.0.1 -> the root's version drops to
+   4.0.1, where FILE-INFO-COMMENT does not exist.  The invariant that holds is per operation, for the version in force when
+   the operation runs (C07_order_inv_partial / _named / _copy / _move); the child list of the witness was in order for the
+   version it was built in (C07_order_history_was_ordered). *)
+Theorem C07_order_history_refuted :
+  forall (tab_el tab_en : nametab) (check_fn : N -> list N -> res bool) (root_attrs : list (N * cdata)),
+  exists (w : world) (h : id) (n : node) (v : N) (items : list (option N)),
+    run_ops RT tab_el tab_en check_fn REAL_LATEST root_attrs hist_ops (mkWorld (fun _ => None) 0 [] []) = Val w /\
+    w_nodes w h = Some n /\ min_version REAL_LATEST h w = Val (OK v, w) /\
+    items_of w (n_content n) = Some items /\ ~ Ordered RT (n_type n) v items.
+Proof. exact order_history_refuted. Qed.
+
+Theorem C07_order_history_was_ordered : Ordered RT real_root REAL_LATEST [Some 1043].
+Proof. exact order_history_was_ordered. Qed.
 
 (* [F] non-vacuity: an ordered child list of the root element of the current tables *)
 Theorem C07_ordered_nonvacuous : Ordered RT real_root REAL_LATEST [Some 2055; Some 5413].
